@@ -119,6 +119,8 @@ def invoke(fid: str, kwargs: dict[str, Any], res: Any = None) -> Any:
     args = tuple(canon(kwargs[p]) for p in fd["params"])
     if fd.get("rescpus"):                       # the result depends on the evaluated resources (their cpus count)
         args = args + (Term(f"@cpus{res.cpus}"),)
+    if fd.get("impl"):                          # tag of the implementation (Pipeline.replace swaps bodies, same signature)
+        args = args + (Term("@impl:" + fd["impl"]),)
     ishape = fd.get("internal_shape") or []
 
     def value(o: str):
@@ -294,6 +296,6 @@ def desc_to_tla(desc: dict) -> dict:
             "internal": list(fd.get("internal_shape") or []),
             "cache": bool(fd.get("cache", False)),
             "retnone": bool(fd.get("retnone", False)),
-            "rescpus": fd.get("rescpus") or "",
+            "rescpus": fd.get("rescpus") or "", "impl": fd.get("impl") or "",
         })
     return {"funcs": funcs}
